@@ -222,7 +222,7 @@ template <class G> struct Monitor {
     std::string cls;
     ObsCounters oc;
     uint64_t callsByKind[KIND_COUNT] = {0};
-    uint64_t rejectedCalls = 0, rejectedThenGrown = 0, abandonedNotRejected = 0, hugeWeightCalls = 0, totalsBeyondDouble = 0;
+    uint64_t rejectedCalls = 0, rejectedThenGrown = 0, abandonedNotRejected = 0, hugeWeightCalls = 0, totalsBeyondDouble = 0, hugeAvoided = 0;
     uint64_t specialWeights = 0, longHistories = 0, scaleHistories = 0, maxDegreeSeen = 0, calls = 0, wPresent = 0, wAbsent = 0, totExact = 0, totTol = 0, matCells = 0, noopChecks = 0, setPresent = 0, setAbsent = 0, setDescending = 0;
     uint64_t after[G_COUNT] = {0};
     Monitor(Reporter &R, const HistConfig &cfg, std::string cls) : R(R), cfg(cfg), cls(std::move(cls)) {}
@@ -240,7 +240,8 @@ template <class G> struct Monitor {
         R.count("noop_exactness_checks", noopChecks);
         R.count("calls_with_a_weight_above_half_of_DBL_MAX", hugeWeightCalls);
         R.count("total_weight_checks_skipped_sum_beyond_double_range", totalsBeyondDouble);
-        hugeWeightCalls = totalsBeyondDouble = 0;
+        R.count("huge_weights_replaced_to_keep_the_sum_a_double", hugeAvoided);
+        hugeWeightCalls = totalsBeyondDouble = hugeAvoided = 0;
         R.count("rejected_calls_inside_histories", rejectedCalls);
         R.count("rejected_calls_followed_by_resize_making_the_index_valid", rejectedThenGrown);
         R.count("histories_abandoned_call_not_rejected", abandonedNotRejected);
@@ -443,6 +444,20 @@ template <class G> struct Monitor {
             op.k = r.u(3);
             if (n == 0 && op.k == 0 && r.chance(3, 4)) op.k = 1 + r.u(3);
             if (n + op.k > maxN) op.k = maxN - n;
+        }
+        if (hugeWeights && (op.kind == ADD || op.kind == SETW)) {
+            // the sum of the weights present stays inside the double range at every step: what is probed is an intermediate
+            // value (a difference, a batch of removed weights) that leaves it, not a total that cannot be represented
+            long double now = s.m.total(), then = now;
+            auto it = s.m.e.find(s.m.key(op.i, op.j));
+            if (it == s.m.e.end()) then = now + op.w;
+            else if (op.kind == SETW) then = now - it->second.w + op.w;
+            if (!(std::fabs(then) < 1.6e308L)) {
+                hugeWeights = false;
+                op.w = genWeight(r, exact);
+                hugeWeights = true;
+                ++hugeAvoided;
+            }
         }
         return op;
     }
